@@ -493,8 +493,7 @@ char * label_from_header(const char * source, token * t, scratch_pad * scratch) 
 		}
 	} else {
 		if (scratch->extensions & EXT_RANDOM_LABELS) {
-			srand(scratch->random_seed_base_labels + scratch->label_counter);
-			temp_short = rand() % 32000 + 1;
+			temp_short = random_anchor_from_seed(scratch->random_seed_base_labels + scratch->label_counter);
 			result = malloc(sizeof(char) * 6);
 			sprintf(result, "%d", temp_short);
 
@@ -1737,6 +1736,21 @@ void process_table_stack(mmd_engine * e) {
 	for (int i = 0; i < e->table_stack->size; ++i) {
 		process_table_to_link(e, stack_peek_index(e->table_stack, i));
 	}
+}
+
+
+/// Pseudo-random anchor (1..32000) derived from a seed alone. rand() keeps one
+/// state for the whole process, so srand(seed) followed by rand() can return the
+/// value that belongs to the seed of a conversion running on another thread --
+/// the call and the entry it links to would then carry different anchors.
+short random_anchor_from_seed(unsigned int seed) {
+	seed ^= seed >> 16;
+	seed *= 0x7feb352dU;
+	seed ^= seed >> 15;
+	seed *= 0x846ca68bU;
+	seed ^= seed >> 16;
+
+	return (short)(seed % 32000 + 1);
 }
 
 
